@@ -836,6 +836,9 @@ int reb_integrator_whfast_init(struct reb_simulation* const r){
     if (ri_whfast->N_allocated != N){
         ri_whfast->N_allocated = N;
         ri_whfast->p_jh = realloc(ri_whfast->p_jh,sizeof(struct reb_particle)*N);
+        // The transformations only set positions, velocities and masses. Zero everything else,
+        // p_jh is part of the Simulationarchive and is compared by reb_simulation_diff().
+        memset(ri_whfast->p_jh, 0, sizeof(struct reb_particle)*N);
         ri_whfast->recalculate_coordinates_this_timestep = 1;
     }
     return 0;
